@@ -211,8 +211,11 @@ func VerifC36_roundTrip() {
 	verifAssert(verifC36BytesEq(enc, want), "Encode output is prefix, Confluent header (magic 0, BE32 id, index with [0] shortcut), payload")
 	enc = enc[len(pre):]
 
+	// all three modes up to depth 1 (depth 2 in thorough); deeper paths: DecodeNew and
+	// header-level decode with maxLength = depth only
+	full := depth <= 1 || (verifThorough() && depth <= 2)
 	mode := 0
-	if depth <= 2 {
+	if full {
 		mode = verifChoose(3)
 	} else {
 		mode = 1 + verifChoose(2)
@@ -238,7 +241,7 @@ func VerifC36_roundTrip() {
 		verifAssert(gotID >= 0, "DecodeID returns a non-negative id")
 		if depth > 0 {
 			maxLength := depth
-			if depth <= 2 {
+			if full {
 				maxLength = verifChoose(3) - 1 + depth // depth-1 (0 => unlimited), depth, depth+1
 			}
 			if maxLength == depth-1 && maxLength > 0 {
@@ -351,11 +354,16 @@ func VerifC36_decodeIndexHostile() {
 	verifReached("c36-decode-index-hostile")
 }
 
-// Same check for inputs whose count varint is 6..10 bytes wide (counts up to the full int64
-// range), followed by 0..2 arbitrary bytes.
+// Same check for inputs whose count varint is 6..10 bytes wide (quick: 7 or 10; counts up to
+// the full int64 range), followed by 0..2 (quick 0..1) arbitrary bytes.
 func VerifC36_decodeIndexWideCount() {
-	k := 6 + verifChoose(5)
-	in := verifNondetBytes("in", k+verifChoose(3))
+	var k, tail int
+	if verifThorough() {
+		k, tail = 6+verifChoose(5), verifChoose(3)
+	} else {
+		k, tail = 7+3*verifChoose(2), verifChoose(2) // 7 or 10 bytes wide, 0..1 more bytes
+	}
+	in := verifNondetBytes("in", k+tail)
 	for i := 0; i < k-1; i++ {
 		verifAssume(in[i] >= 0x80)
 	}
